@@ -120,6 +120,28 @@ pub fn gen_c17(out: &mut Out, rng: &mut Rng, thorough: bool) {
             monitor_line(out, &line);
         }
     }
+    // every way of connecting: with / without explicit slave, with / without timeout; followed by
+    // a later set_slave
+    for kind in ["tcp", "rtu"] {
+        for explicit in [false, true] {
+            for to in ["", " to=1500"] {
+                let default_unit = if kind == "tcp" { 255 } else { 0 };
+                let s0 = rng.u8();
+                let (tok, unit) = if explicit { (hex8(s0), s0) } else { ("-".to_string(), default_unit) };
+                let s1 = rng.u8();
+                let pdu = [0x03u8, 0x02, 0x12, 0x34];
+                monitor_line(
+                    out,
+                    &format!(
+                        "sync {kind} {tok}{to} | call RHR:0001:0001 r=d{} | slave {} | call RHR:0001:0001 r=d{}",
+                        hex_raw(&frame(kind, 0, unit, &pdu)),
+                        hex8(s1),
+                        hex_raw(&frame(kind, 1, s1, &pdu))
+                    ),
+                );
+            }
+        }
+    }
     let n = if thorough { 2000 } else { 100 };
     for i in 0..n {
         let kind = if i % 4 == 3 { "rtu" } else { "tcp" };
@@ -253,6 +275,7 @@ pub fn gen_c18(out: &mut Out, rng: &mut Rng, thorough: bool) {
                 continue;
             }
             let nreq = rng.range(1, if thorough { 50 } else { 12 });
+            let faulty = rng.chance(1, 3);
             let mut data = vec![];
             let mut svc = vec![];
             for q in 0..nreq {
@@ -263,6 +286,10 @@ pub fn gen_c18(out: &mut Out, rng: &mut Rng, thorough: bool) {
                 svc.push(match rng.below(8) {
                     0 => Svc::Decline,
                     1 => Svc::Exception(tokio_modbus::ExceptionCode::new(1 + (q % 4) as u8)),
+                    // now and then a response the server must refuse to encode: it ends this
+                    // connection and must leave every other one alone (last request of the
+                    // connection, so that the server closes with nothing unread: no RST)
+                    2 | 3 | 4 if faulty && q == nreq - 1 => Svc::Reply(Response::ReadHoldingRegisters(rng.words(127))),
                     _ => Svc::Reply(Response::ReadHoldingRegisters(tag)),
                 });
             }
@@ -341,7 +368,15 @@ pub fn mon_c18(out: &mut Out, l: &str, r: &str) {
                 expect_calls.push(format!("{}:{}", hex8(*unit), request(&req)));
             }
             match svc.get(q) {
-                Some(Svc::Reply(rsp)) => expect_out.extend(frame(kind, *tid, *unit, &spec::response_bytes(rsp).unwrap())),
+                Some(Svc::Reply(rsp)) => {
+                    let b = spec::response_bytes(rsp).unwrap_or_default();
+                    if b.is_empty() || b.len() > 253 {
+                        // a response the encoder must refuse: this connection ends here – and only
+                        // this one
+                        break;
+                    }
+                    expect_out.extend(frame(kind, *tid, *unit, &b))
+                }
                 Some(Svc::Exception(e)) => {
                     let code: u8 = (*e).into();
                     expect_out.extend(frame(kind, *tid, *unit, &[pdu[0] | 0x80, code]));
